@@ -51,10 +51,13 @@ def _register_all():
     for label, ptx in (("P", F(8)), ("P-2%", F(784, 100)), ("P+2%", F(816, 100))):
         reg(f"uart.rx(P=8,line={label})", "quick", lambda label=label, ptx=ptx: U.RxHarness(f"uart.rx(P=8,line={label})", 2**29, ptx, U.BYTES6))
     for label, ptx in (("P", F(50)), ("P-2%", F(49)), ("P+2%", F(51))):
-        reg(f"uart.rx(P=50,line={label})", "thorough", lambda label=label, ptx=ptx: U.RxHarness(f"uart.rx(P=50,line={label})", 2**32//50, ptx, U.BYTES6))
+        reg(f"uart.rx(P=50,line={label})", "thorough", lambda label=label, ptx=ptx: U.RxHarness(f"uart.rx(P=50,line={label})", 2**32//50, ptx, U.BYTES24))
     for label, ptx in (("P", F(8)), ("P-2%", F(784, 100)), ("P+2%", F(816, 100))):
-        reg(f"uart.rx(P=8,line={label},all_bytes)", "thorough",
-            lambda label=label, ptx=ptx: U.RxHarness(f"uart.rx(P=8,line={label},all_bytes)", 2**29, ptx, range(256), phases=None if ptx.denominator == 1 else range(0, 25, 6)))
+        ph = None if ptx.denominator == 1 else range(0, 25, 6)
+        reg(f"uart.rx(P=8,line={label},24_bytes)", "thorough",
+            lambda label=label, ptx=ptx, ph=ph: U.RxHarness(f"uart.rx(P=8,line={label},24_bytes)", 2**29, ptx, U.BYTES24, phases=ph, cap=3_000_000))
+        reg(f"uart.rx(P=8,line={label},all_bytes,first_frame)", "thorough",
+            lambda label=label, ptx=ptx, ph=ph: U.RxHarness(f"uart.rx(P=8,line={label},all_bytes,first_frame)", 2**29, ptx, range(256), phases=ph, max_frames=1))
     for label, clk, baud in (("4", 4e6, 1e6), ("3", 3e6, 1e6), ("5.33", 16e6, 3e6), ("8", 8e6, 1e6)):
         reg(f"uart.phy_loopback(N={label})", "quick", lambda label=label, clk=clk, baud=baud: U.PhyLoopHarness(f"uart.phy_loopback(N={label})", clk, baud, U.BYTES6))
     reg("uart.phy_loopback(N=4,all_bytes)", "thorough", lambda: U.PhyLoopHarness("uart.phy_loopback(N=4,all_bytes)", 4e6, 1e6, range(256)))
@@ -68,7 +71,7 @@ def _register_all():
     for div in (2, 3, 4, 5):
         for mode in ("raw", "aligned"):
             spi(f"spi.master(dw=4,div={div},{mode})", "quick", dw=4, div=div, mode=mode)
-            spi(f"spi.master(dw=4,div={div},{mode},6_words,all_answers)", "thorough", dw=4, div=div, mode=mode, full_words=True, swords="all")
+            spi(f"spi.master(dw=4,div={div},{mode},6_words,all_answers)", "thorough", dw=4, div=div, mode=mode, full_words=True, swords="all", cap=2_500_000)
     for div, mode in ((2, "raw"), (3, "aligned")):
         spi(f"spi.master(dw=8,div={div},{mode},lengths 1,2,5,8)", "thorough", dw=8, div=div, mode=mode, lengths=(1, 2, 5, 8), nwords=2, cap=3_000_000)
     spi("spi.master(dw=8,div=2,aligned,loopback,lengths 1..8)", "thorough", dw=8, div=2, mode="aligned", loopback=1, nwords=3)
